@@ -10,9 +10,11 @@
 //! the way a remote server is: signed CMS over HTTP to a small front in this process that hands the bytes to
 //! `RepositoryManager::rfc8181` of the same runtime.
 //!
-//! Flags (default 0): `--entitle 1` also changes the CA's entitlement at a parent while a migration is in progress;
-//! `--stale 1` lets a migration go back to a repository that still waits for its clean-up. Both reproduce
-//! behaviour that the model's theorems exclude by hypothesis (see MigrateProofs.v).
+//! Two schedules that once broke the real code (findings F04d, F04e, repaired in /repo c6a66d92 and 1c1bdf32) are part
+//! of every run: the parent changes the CA's entitlement while a migration is in progress (the still active key, which
+//! publishes at the old repository, gets a new certificate - its SIA must keep naming the old repository), and a
+//! migration goes back to a repository that still waits for its clean-up (it must come off the deprecated list).
+//! `--entitle 0` / `--stale 0` switch them off.
 use std::collections::{BTreeMap, BTreeSet};
 use std::io::{Read, Write};
 use std::sync::Mutex;
@@ -379,7 +381,7 @@ impl Hist<'_> {
             }
             6 => { let s = self.sync_choice(); self.step(json!({"op": "keyroll_init"}), s, &|sys| sys.keyroll_init(CA).map_err(|e| e.to_string())); }
             7 => self.step(json!({"op": "sync_repo"}), true, &|_| Ok(())),
-            _ => { // (only with --entitle 1) the first parent changes the entitlement
+            _ => { // the first parent changes the entitlement (off with --entitle 0)
                 self.ent_a = if self.ent_a == 0x30 { 0x70 } else { 0x30 };
                 let m = self.ent_a;
                 let s = self.sync_choice();
@@ -427,7 +429,7 @@ fn run_history(args: &Args, hist: u64, seed: u64, n_ops: u64, out: &Mutex<Out>) 
         if tags.len() != 2 || tags.values().any(|t| t != "active") { fail(format!("the CA does not start with two active classes: {tags:?}")); return }
     }
     let mut h = Hist { sys, hist, rng: Rng::new(seed), out, contacts, roas: [vec!["10.4.0.0/24 => 64516".into()], vec!["10.3.0.0/24 => 64515".into()]], roa_n: 0,
-        ent_a: 0x30, b_removed: false, critical: false, migrations: 0, stale: args.get_u64("stale", 0) == 1, entitle: args.get_u64("entitle", 0) == 1 };
+        ent_a: 0x30, b_removed: false, critical: false, migrations: 0, stale: args.get_u64("stale", 1) == 1, entitle: args.get_u64("entitle", 1) == 1 };
 
     // scripted part: the classes move at different speeds
     let variant = hist % 4;
@@ -435,8 +437,8 @@ fn run_history(args: &Args, hist: u64, seed: u64, n_ops: u64, out: &Mutex<Out>) 
         let (first, fp, second, sp): (&str, &'static str, &str, &'static str) = if variant <= 1 { ("0", "a", "1", "b") } else { ("1", "b", "0", "a") };
         h.migrate_op(1);
         if h.entitle && variant == 0 {
-            // (only with --entitle 1) the parent changes the entitlement right after the migration: the still active key,
-            // which publishes at the old repository, gets a new certificate too
+            // F04d: the parent changes the entitlement right after the migration: the still active key, which publishes
+            // at the old repository, gets a new certificate too
             h.ent_a = 0x70;
             h.step(json!({"op": "entitlement", "parent": "a", "mask": 0x70, "scripted": true}), true, &|sys| sys.update_child_resources("a", CA, atoms_to_resources(0x70)).map_err(|e| e.to_string()));
             for _ in 0..3 { h.step(json!({"op": "sync_parent", "parent": "a", "scripted": true}), true, &|sys| sys.sync_parent(CA, "a").map(|_| ()).map_err(|e| e.to_string())); }
@@ -444,17 +446,25 @@ fn run_history(args: &Args, hist: u64, seed: u64, n_ops: u64, out: &Mutex<Out>) 
         h.sync_until(first, fp, "roll_new");
         if variant == 1 { h.random_op(); }
         h.step(json!({"op": "keyroll_activate", "scripted": true}), true, &|sys| sys.keyroll_activate(CA).map_err(|e| e.to_string()));
+        if h.entitle && variant == 1 {
+            // ... and in the next stage: the old key (old repository) awaits revocation, the new one is in use
+            h.ent_a = 0x70;
+            h.step(json!({"op": "entitlement", "parent": "a", "mask": 0x70, "scripted": true, "while": "roll_old"}), true, &|sys| sys.update_child_resources("a", CA, atoms_to_resources(0x70)).map_err(|e| e.to_string()));
+        }
         h.sync_until(second, sp, "roll_new");
         h.sync_until(first, fp, "active");
-        if h.stale {
-            // (only with --stale 1) finish the other class without a synchronisation and go straight back
+        if h.stale && variant == 2 {
+            // F04e: finish the other class without a synchronisation, go straight back to the repository that now waits
+            // for its clean-up, let a class stage its new key there, and only then synchronise
             h.step(json!({"op": "keyroll_activate", "scripted": true}), false, &|sys| sys.keyroll_activate(CA).map_err(|e| e.to_string()));
             for _ in 0..3 {
                 if class_tags(&h.sys).get(second).map(|t| t == "active").unwrap_or(false) { break }
                 h.step(json!({"op": "sync_parent", "parent": sp, "scripted": true}), false, &move |sys| sys.sync_parent(CA, sp).map(|_| ()).map_err(|e| e.to_string()));
             }
             let c = h.contacts[0].clone();
-            h.step(json!({"op": "update_repo", "to": PUBS[0], "scripted": true, "before_cleanup": true}), true, &move |sys| sys.repo_migrate(CA, c.clone()).map_err(|e| e.to_string()));
+            h.step(json!({"op": "update_repo", "to": PUBS[0], "scripted": true, "before_cleanup": true}), false, &move |sys| sys.repo_migrate(CA, c.clone()).map_err(|e| e.to_string()));
+            h.step(json!({"op": "sync_parent", "parent": fp, "scripted": true, "before_cleanup": true}), false, &move |sys| sys.sync_parent(CA, fp).map(|_| ()).map_err(|e| e.to_string()));
+            h.step(json!({"op": "sync_parent", "parent": fp, "scripted": true, "before_cleanup": true}), true, &move |sys| sys.sync_parent(CA, fp).map(|_| ()).map_err(|e| e.to_string()));
         }
     } else {
         h.migrate_op(1 + (seed % 2) as usize);
@@ -524,12 +534,12 @@ fn main() {
     let mut o = out.into_inner().unwrap();
     o.w.flush();
     let crit = o.outcome.get("histories_with_a_class_finishing_while_another_is_staged_on_the_old_repository").copied().unwrap_or(0);
-    if only.is_none() && args.get_u64("stale", 0) == 0 && crit * 2 < n_hist { o.harness_errors.push(format!("only {crit} of {n_hist} histories reached the schedule 'one class finishes while another is staged on the old repository'")); }
+    if only.is_none() && crit * 2 < n_hist { o.harness_errors.push(format!("only {crit} of {n_hist} histories reached the schedule 'one class finishes while another is staged on the old repository'")); }
     if o.w.total == 0 { o.harness_errors.push("no case was produced".into()); }
     write_json(&args.out.join("stats.json"), &json!({
         "scenario": "migrate", "seed": args.seed, "tier": args.tier, "histories": n_hist, "ops_per_history": n_ops,
         "evaluations": o.w.total, "distinct_nontrivial": o.distinct.len(),
-        "rule": "per history one in-process Krill runtime: CA d with two resource classes (parents a and b), ROAs in both, a child certificate in class 0 and three publishers (d: local short-cut, d2/d3: signed RFC 8181 over HTTP); a migration, then in three of four histories a scripted prefix in which one class is staged, activated and finished while the other is only staged, then random operations (sync with either parent, activate, ROA add/remove, further migration, second parent removed / re-added, plain key roll, repository synchronisation - which follows an operation with probability 3/4, always when a repository is deprecated), then syncs and activations until every class has one active key; one case per operation: state before, model operations read from the stored events, state after the command, state and publisher contents after the synchronisation; non-trivial = the operation produced model operations or a repository was deprecated; distinct = distinct (model operation kinds, class states with old-repository marks before and after, deprecated count)",
+        "rule": "per history one in-process Krill runtime: CA d with two resource classes (parents a and b), ROAs in both, a child certificate in class 0 and three publishers (d: local short-cut, d2/d3: signed RFC 8181 over HTTP); a migration, then in three of four histories a scripted prefix in which one class is staged, activated and finished while the other is only staged, then random operations (sync with either parent, activate, ROA add/remove, further migration - also back to a repository that still awaits its clean-up -, entitlement change at the first parent, second parent removed / re-added, plain key roll, repository synchronisation - which follows an operation with probability 3/4); scripted in some histories: entitlement change right after the migration and while the old key awaits revocation, and a migration back before the clean-up with a class staging its new key there before the first synchronisation, then syncs and activations until every class has one active key; one case per operation: state before, model operations read from the stored events, state after the command, state and publisher contents after the synchronisation; non-trivial = the operation produced model operations or a repository was deprecated; distinct = distinct (model operation kinds, class states with old-repository marks before and after, deprecated count)",
         "op_distribution": o.op_hist, "model_op_distribution": o.mop_hist, "error_distribution": o.err_hist, "outcome_distribution": o.outcome,
         "samples": o.samples, "harness_errors": o.harness_errors, "impl_failures": o.impl_failures,
     }));
